@@ -37,6 +37,7 @@ ASSUME /\ Distinct(VariantNo, 48) /\ Distinct(AttrNo, 48) /\ Distinct(TagNo, 24)
        /\ Distinct(LAMBDA d : UKeyNo(d), 48) /\ Distinct(LAMBDA d : TKeyNo(d), 48)
        /\ \A d \in 1..48 : IsVariant(VariantNo(d)) /\ IsAttr(AttrNo(d)) /\ IsUKey(UKeyNo(d)) /\ IsTKey(TKeyNo(d))
 
+AnyBase == << B("en-US-u-foo-t-hi-latn"), B("sr_Cyrl_RS_valencia_x_a1"), B("de-1996-u-ca-gregory-t-h0-hybrid") >>
 Heads == << <<B("en")>>, <<B("SR"), B("cyrl"), B("rs")>>, <<B("und"), B("419")>> >>
 
 Members(f(_), m) == [j \in 1..m |-> f(j)]
@@ -61,10 +62,19 @@ Toks ==
                cut == IF n > Len(base) THEN Len(base) ELSE n
            IN Split(SubSeq(base, 1, cut) \o <<195, 129>> \o SubSeq(base, cut + 1, Len(base)))
 
-Kinds6 == {"variants", "attrs", "keywords", "tfields", "tags", "all", "odd", "types", "tvalues", "tlangvars"}
+      (* EVERY byte value (n % 256) put in front of byte offset n \div 256 of a locale that has every kind of part: the    *)
+      (* bytes next to the separators (',' '.' '^' '`'), the case bit, the high bit ... at every position, also right     *)
+      (* before a separator and at an extension boundary (a tokenizer or classifier built on bit tricks)                  *)
+      [] kind = "anybyte" ->
+           LET base == AnyBase[head]
+               off == n \div 256
+           IN Split(SubSeq(base, 1, off) \o <<n % 256>> \o SubSeq(base, off + 1, Len(base)))
+
+Kinds6 == {"variants", "attrs", "keywords", "tfields", "tags", "all", "odd", "types", "tvalues", "tlangvars", "anybyte"}
 (* us: every third separator is an underscore (the two separators must be    *)
 (* interchangeable at any length, C09 / C13)                                  *)
-Init == kind \in Kinds6 /\ head \in 1..3 /\ n \in 0..(IF kind = "odd" THEN 3 * MaxN ELSE MaxN)
+Init == kind \in Kinds6 /\ head \in 1..3
+        /\ n \in 0..(IF kind = "odd" THEN 3 * MaxN ELSE IF kind = "anybyte" THEN 256 * (Len(AnyBase[head]) + 1) - 1 ELSE MaxN)
         /\ us \in BOOLEAN /\ (us => kind \in {"variants", "all"} /\ n % 4 = 1)
         /\ (kind \in {"keywords", "tfields", "attrs", "tags", "all", "types", "tvalues"} => n >= 1)
 Spec == Init /\ [][FALSE]_<<kind, n, head, us>>
@@ -73,7 +83,9 @@ RLI  == ParseLITokens(Toks)
 RLoc == ParseLocTokens(Toks)
 
 (* the inputs are what they are meant to be                                  *)
-Shape == /\ kind \notin {"odd"} => RLoc.zone = "accept"
+Shape == /\ kind \notin {"odd", "anybyte"} => RLoc.zone = "accept"
+         (* a byte that is neither alphanumeric nor a separator makes any text ill-formed, wherever it stands *)
+         /\ (kind = "anybyte" /\ ~IsAlnum(n % 256) /\ n % 256 \notin {45, 95}) => RLoc.zone = "reject" /\ ~RLI.ok
          /\ kind = "variants" => RLI.ok /\ Len(RLI.val.variants) = n
          /\ kind = "attrs" => Len(RLoc.val.attrs) = n
          /\ kind = "keywords" => Len(RLoc.val.kw) = n
